@@ -1,7 +1,8 @@
 (* Executable model for C20: libsigopt/aux/validate_schema.py (validate, process_error, get_path_string), the error
    classes of libsigopt/aux/errors.py, and the specification `conforms` of the JSON-schema keywords (draft 2020-12
    semantics as implemented by jsonschema 4.x) that the correspondence compares with jsonschema's accept/reject.
-   No proofs here.  Strings are lists of code points (N); numbers are Z (Python int) or Q (Python float, exact). *)
+   No proofs here.  Strings are lists of code points (N); numbers are Z (Python int) or Q (Python float, exact).
+   Regular expressions are oracles: rxm for the keyword `pattern`, pm for patternProperties (see pat_matched). *)
 From Coq Require Import List ZArith NArith QArith Bool Arith Ascii String.
 Import ListNotations.
 
